@@ -120,6 +120,23 @@ fn c09_jobs(thorough: bool) -> Vec<Job> {
         out.push(s(2, 2, vec![3, 2], 3));
         out.push(s(2, 1, vec![3, 1], 3));
     }
+    // weights that each fit 64 bits but whose sum does not: the total must not wrap (the second
+    // bond may be refused); finite funds and a capped clock, run to the fixpoint
+    let big: u128 = 10_000_000_000_000_000_000;
+    out.push(Job::S9(
+        c09::StakeHist {
+            cfg: c09::StakeCfg {
+                name: "C09/stake/native/tokens_per_weight 1/min_bond 1/funds [1e19, 1e19]/amounts {1e19, 1}/2 blocks/edge: sum of weights above 2^64".into(),
+                tpw: 1,
+                min_bond: 1,
+                funds: vec![big, big],
+                amounts: vec![big, 1],
+                hmax: H0 + 1,
+            },
+            memo: Default::default(),
+        },
+        Some(if thorough { 8 } else { 6 }),
+    ));
     out
 }
 
@@ -233,6 +250,20 @@ fn c10_jobs(thorough: bool) -> Vec<Job> {
                 depth,
             ));
         }
+        // two stakers whose weights fit 64 bits each but not together
+        out.push(mk(
+            cw20,
+            1,
+            1,
+            hp,
+            [10_000_000_000_000_000_000, 10_000_000_000_000_000_000, 0],
+            vec![10_000_000_000_000_000_000, 1],
+            vec![1, 10_000_000_000_000_000_000],
+            3,
+            false,
+            "edge: sum of weights above 2^64",
+            depth,
+        ));
         out.push(mk(
             cw20,
             1,
@@ -342,12 +373,12 @@ fn jobs(prop: &str, thorough: bool) -> Vec<Job> {
 fn describe(prop: &str) -> (&'static str, &'static str, &'static str) {
     match prop {
         "C09" => (
-            "cw4-group: UpdateMembers with every add list over the member alphabet x weight alphabet of size <= 2 combined with every remove list of size <= 2 (overlaps, re-adds, re-weights, removal of non-members, zero weights, empty update, a repeated address in add and in remove, weights 2^64-1), any number of updates per block, AdvanceBlock up to the block bound; initial lists [], [A:1], [A:0], [A:1,B:2] and lists with a repeated member. cw4-stake (kernel + bank, native denom): Bond/Unbond of 1..3 tokens by two users, Claim, AdvanceBlock.",
+            "cw4-group: UpdateMembers with every add list over the member alphabet x weight alphabet of size <= 2 combined with every remove list of size <= 2 (overlaps, re-adds, re-weights, removal of non-members, zero weights, empty update, a repeated address in add and in remove, weights 2^64-1), any number of updates per block, AdvanceBlock up to the block bound; initial lists [], [A:1], [A:0], [A:1,B:2] and lists with a repeated member. cw4-stake (kernel + bank, native denom): Bond/Unbond of 1..3 tokens by two users, Claim, AdvanceBlock; one edge configuration with two users bonding 1e19 each (sum of weights above 2^64).",
             "reference = membership at the START of every block since instantiation. After every step, for every probe address (members and a never-member) and every height h in {0, H0-1, H0 .. now+2}: Member{addr,at_height:h} == reference (None up to and including the instantiation height, unaffected by changes in block h or later, current value for future heights); Member{addr} == current; cw4-group TotalWeight{at_height:h} likewise; TotalWeight == sum of ListMembers paged by 2; listing == true membership; raw cw4::TOTAL_KEY and cw4::member_key(addr) decode to the smart-query values. For cw4-stake the history is built from the weights the contract reported when they were current (whether they are the right function of the stake is C10).",
             "the clock is capped (blocks per configuration in its name) and weights are finite, so every configuration runs to a FIXPOINT: all histories over the alphabet within the block bound, any number of updates per block",
         ),
         "C10" => (
-            "Bond with funds {1,2,3 of the stake denom, another denom, a denom equal to the stake denom up to letter case, two denoms, none}; cw20 Send{Bond} through the configured real cw20-base token and through a foreign one; Receive sent directly by a user (for himself / for another user); Unbond {0,1,2,3, stake+1}; Claim; a donation to the contract; AdvanceBlock (+1 block, +5 s; in the sub-second configuration blocks start at T0+0.7 s and advance by 9.5 s or 0.5 s). Configurations: native / cw20 stake token, tokens_per_weight {1,2,3}, min_bond {0,1,2,5}, unbonding Height(2) / Time(10 s), two stakers with finite funds and a donor. Edge configurations: bonds of 2^64*tpw-1, 2^64*tpw, 2^64*tpw+3, 2^128-1, 2^128-2.",
+            "Bond with funds {1,2,3 of the stake denom, another denom, a denom equal to the stake denom up to letter case, two denoms, none}; cw20 Send{Bond} through the configured real cw20-base token and through a foreign one; Receive sent directly by a user (for himself / for another user); Unbond {0,1,2,3, stake+1}; Claim; a donation to the contract; AdvanceBlock (+1 block, +5 s; in the sub-second configuration blocks start at T0+0.7 s and advance by 9.5 s or 0.5 s). Configurations: native / cw20 stake token, tokens_per_weight {1,2,3}, min_bond {0,1,2,5}, unbonding Height(2) / Time(10 s), two stakers with finite funds and a donor. Edge configurations: bonds of 2^64*tpw-1, 2^64*tpw, 2^64*tpw+3, 2^128-1, 2^128-2, and two stakers bonding 1e19 each (sum of weights above 2^64).",
             "reference ledger {stake[u], claims[u]=[(amount, unbond block height / exact block time in nanoseconds + period)]} stepped on accepted calls. State: real holdings of the contract (kernel bank / real cw20 balance) >= sum stakes + sum unreleased claims, == when nobody donated; Staked and Claims queries == ledger; Member{u} == Some(floor(stake/tokens_per_weight)) compared in 128 bits iff stake >= max(min_bond,1) else None; TotalWeight == sum of listed weights; listing == Member queries. Transition: accepted bond with anything but exactly the configured token, foreign-token Send{Bond} or user-sent Receive accepted => violation; Unbond above the stake accepted => violation; an accepted Claim moves exactly the sum of the caller's claims whose release point is reached (computed by the reference) from the contract to the caller and removes them, nobody else's balance moves; every other accepted call moves exactly its own amount; a refused call and a block advance change nothing.",
             "closed configurations (finite funds, capped clock, zero-unbond offered once per pending zero claim) run to FIXPOINT; edge configurations to the stated depth",
         ),
